@@ -841,3 +841,177 @@ Example tcpcl_send_ack_zero_hole :
   /\ option_map (fun r => ss_result (fst r)) (send_run (send_init [1; 2; 3; 4] 2 0) [SeStep; SeAck 0])
      = Some (Some SrOk).
 Proof. vm_compute. split; reflexivity. Qed.
+
+(* ------------------------------------------------------------------------------------------ *)
+(* session level: the Client sends with the peer's Segment MRU, transfer ids are pairwise
+   distinct, the peer can tell the transfers of a session apart, one report per bundle *)
+
+Lemma tcc_alloc_n_length : forall n next, length (tcc_alloc_n next n) = n.
+Proof. induction n as [|n IH]; intros next; cbn [tcc_alloc_n length]; [reflexivity|]. rewrite IH. reflexivity. Qed.
+
+Lemma tcc_alloc_n_ge : forall n next x, In x (tcc_alloc_n next n) -> next <= x.
+Proof.
+  induction n as [|n IH]; intros next x; cbn [tcc_alloc_n tcc_alloc fst snd In]; [intros []|].
+  intros [<-|Hin]; [lia|]. specialize (IH _ _ Hin). lia.
+Qed.
+
+(* any number of Send calls on one session get pairwise distinct transfer ids *)
+Lemma tcc_alloc_n_nodup : forall n next, NoDup (tcc_alloc_n next n).
+Proof.
+  induction n as [|n IH]; intros next; cbn [tcc_alloc_n tcc_alloc fst snd]; constructor; [|apply IH].
+  intro Hin. apply tcc_alloc_n_ge in Hin. lia.
+Qed.
+
+Lemma tc_bytes_eqb_refl : forall l, bytes_eqb l l = true.
+Proof. unfold bytes_eqb. induction l as [|x l IH]; cbn [list_eqb]; [reflexivity|]. rewrite N.eqb_refl, IH. reflexivity. Qed.
+
+(* the executable checker accepts the model's segment sequence *)
+Lemma chk_segments_complete : forall bs m tid,
+  bs <> [] -> 1 <= m -> chk_segments bs m tid (segments bs m tid) = true.
+Proof.
+  intros bs m tid Hne Hm. destruct (tcpcl_segments bs m tid Hne Hm) as (Hall & Hc & Hs & He).
+  rewrite Forall_forall in Hall.
+  assert (A1 : chk_sizes m (segments bs m tid) = true).
+  { unfold chk_sizes. apply forallb_forall. intros s Hin. destruct (Hall s Hin) as (_ & H1 & H2).
+    apply andb_true_intro. split; apply N.leb_le; lia. }
+  assert (A2 : chk_concat bs (segments bs m tid) = true).
+  { unfold chk_concat. rewrite Hc. apply tc_bytes_eqb_refl. }
+  assert (A3 : chk_tid tid (segments bs m tid) = true).
+  { unfold chk_tid. apply forallb_forall. intros s Hin. destruct (Hall s Hin) as (Ht & _). apply N.eqb_eq. exact Ht. }
+  assert (A4 : chk_start (segments bs m tid) = true).
+  { destruct Hs as (s0 & r & -> & H1 & H2). unfold chk_start. rewrite H1. cbn [andb].
+    apply forallb_forall. intros s Hin. rewrite Forall_forall in H2. rewrite (H2 s Hin). reflexivity. }
+  assert (A5 : chk_end (segments bs m tid) = true).
+  { unfold chk_end. apply andb_true_intro. split.
+    - destruct He as (f & sl & -> & H1 & _). unfold last_sat. rewrite rev_app_distr. cbn [rev app]. exact H1.
+    - exact (all_but_last_of_end_only_last _ He). }
+  unfold chk_segments. rewrite A1, A2, A3, A4, A5. reflexivity.
+Qed.
+
+Definition tcc_xfer (m : N) (p : N * list N) : xfer := mkX (fst p) m (snd p).
+
+Lemma tcc_session_xfers_tids : forall next bss,
+  map fst (tcc_session_xfers next bss) = tcc_alloc_n next (length bss).
+Proof.
+  intros next bss. unfold tcc_session_xfers.
+  assert (H : forall (l1 : list N) (l2 : list (list N)), length l1 = length l2 -> map fst (combine l1 l2) = l1).
+  { induction l1 as [|a l1 IH]; intros [|b l2] Hl; cbn in *; try reflexivity; try discriminate.
+    f_equal. apply IH. congruence. }
+  apply H. apply tcc_alloc_n_length.
+Qed.
+
+Lemma tcc_session_xfers_bs : forall next bss p, In p (tcc_session_xfers next bss) -> In (snd p) bss.
+Proof. intros next bss [t b] Hin. unfold tcc_session_xfers in Hin. apply in_combine_r in Hin. exact Hin. Qed.
+
+(* C11, sender side of a session: the Client of a node that announced [own] sends the bundles
+   [bss] (k Send calls in any interleaving) to a peer that announced Segment MRU [peer] >= 1:
+   whatever interleaving [tr] of the transfers' segments the peer receives, for every transfer
+   the segments carrying its id are at most [peer] bytes long, concatenate to the bundle's
+   encoding, carry START on exactly the first and END on exactly the last, and every segment
+   belongs to one of the transfers. *)
+Lemma tcc_session_sender : forall own peer next bss tr,
+  1 <= peer -> Forall (fun bs => bs <> []) bss ->
+  MergeAll (tcc_session_segs own peer next bss) tr ->
+  tcc_chk_trace peer (tcc_session_xfers next bss) tr = true.
+Proof.
+  intros own peer next bss tr Hp Hne Hm.
+  set (ps := tcc_session_xfers next bss) in *.
+  set (xs := map (tcc_xfer peer) ps).
+  assert (Hsegs : map xfer_segs xs = tcc_session_segs own peer next bss).
+  { unfold xs, tcc_session_segs. fold ps. rewrite map_map. reflexivity. }
+  assert (Hnd : NoDup (map x_tid xs)).
+  { unfold xs. rewrite map_map. cbn [tcc_xfer x_tid]. change (map (fun x => fst x) ps) with (map fst ps).
+    unfold ps. rewrite tcc_session_xfers_tids. apply tcc_alloc_n_nodup. }
+  assert (Hok : Forall xfer_ok xs).
+  { unfold xs. apply Forall_forall. intros x Hx. apply in_map_iff in Hx. destruct Hx as (p & <- & Hp').
+    split; cbn [tcc_xfer x_bs x_m]; [|exact Hp].
+    rewrite Forall_forall in Hne. apply Hne. apply (tcc_session_xfers_bs next bss). exact Hp'. }
+  rewrite <- Hsegs in Hm.
+  unfold tcc_chk_trace. apply andb_true_intro. split.
+  - apply forallb_forall. intros p Hp'.
+    assert (Hx : In (tcc_xfer peer p) xs) by (unfold xs; apply in_map; exact Hp').
+    pose proof (mergeall_filter xs tr Hnd Hok Hm _ Hx) as Hf.
+    change (tcc_for_tid (fst p) tr) with (filter (for_tid (x_tid (tcc_xfer peer p))) tr). rewrite Hf.
+    unfold xfer_segs. cbn [tcc_xfer x_bs x_m x_tid].
+    rewrite Forall_forall in Hok. destruct (Hok _ Hx) as [Hb _]. apply chk_segments_complete; assumption.
+  - apply forallb_forall. intros s Hs. apply existsb_exists.
+    destruct (mergeall_in _ _ _ s Hm Hs) as (l & Hl & Hsl). apply in_map_iff in Hl. destruct Hl as (x & <- & Hx).
+    unfold xs in Hx. apply in_map_iff in Hx. destruct Hx as (p & <- & Hp').
+    exists p. split; [exact Hp'|]. apply N.eqb_eq. symmetry.
+    assert (Hx : In (tcc_xfer peer p) xs) by (unfold xs; apply in_map; exact Hp').
+    rewrite Forall_forall in Hok. apply (xfer_segs_tid (tcc_xfer peer p) s (Hok _ Hx) Hsl).
+Qed.
+
+Lemma tcc_session_sender_full : forall own peer next bss tr,
+  1 <= peer -> Forall (fun bs => bs <> []) bss ->
+  MergeAll (tcc_session_segs own peer next bss) tr ->
+  NoDup (tcc_alloc_n next (length bss))
+  /\ tcc_chk_trace peer (tcc_session_xfers next bss) tr = true.
+Proof.
+  intros own peer next bss tr Hp Hne Hm.
+  exact (conj (tcc_alloc_n_nodup (length bss) next) (tcc_session_sender own peer next bss tr Hp Hne Hm)).
+Qed.
+
+(* the number of bundles handed up is the number of END segments *)
+Lemma rx_run_count : forall ss st, length (snd (rx_run st ss)) = length (filter sg_has_end ss).
+Proof.
+  induction ss as [|s ss IH]; intros st; [reflexivity|].
+  cbn [rx_run filter]. unfold rx_step. destruct (sg_has_end s).
+  - destruct (rx_run (rx_del st (sg_tid s)) ss) as [[st'' acks] ds] eqn:Er. cbn [snd length].
+    specialize (IH (rx_del st (sg_tid s))). rewrite Er in IH. cbn [snd] in IH. rewrite IH. reflexivity.
+  - destruct (rx_run (rx_set st (sg_tid s) (rx_lookup st (sg_tid s) ++ sg_data s)) ss) as [[st'' acks] ds] eqn:Er.
+    cbn [snd]. specialize (IH (rx_set st (sg_tid s) (rx_lookup st (sg_tid s) ++ sg_data s))). rewrite Er in IH. exact IH.
+Qed.
+
+Lemma merge_length : forall A (l1 l2 l : list A), Merge l1 l2 l -> length l = (length l1 + length l2)%nat.
+Proof. intros A l1 l2 l H. induction H; cbn [length]; lia. Qed.
+
+Lemma mergeall_filter_length : forall A (p : A -> bool) ls tr,
+  MergeAll ls tr -> length (filter p tr) = list_sum (map (fun l => length (filter p l)) ls).
+Proof.
+  intros A p ls tr H. induction H; [reflexivity|].
+  cbn [map list_sum]. rewrite (merge_length _ _ _ _ (merge_filter _ p _ _ _ H0)). rewrite IHMergeAll. reflexivity.
+Qed.
+
+Lemma xfer_segs_one_end : forall x, xfer_ok x -> length (filter sg_has_end (xfer_segs x)) = 1%nat.
+Proof.
+  intros x [Hne Hm]. destruct (tcpcl_segments (x_bs x) (x_m x) (x_tid x) Hne Hm) as (_ & _ & _ & He).
+  destruct He as (f & sl & Heq & H1 & H2). unfold xfer_segs. rewrite Heq. rewrite filter_app.
+  rewrite (filter_all_false _ _ f).
+  2:{ intros s Hs. rewrite Forall_forall in H2. apply H2. exact Hs. }
+  cbn [filter app]. rewrite H1. reflexivity.
+Qed.
+
+(* C11, receiver side of a session (Client.handle on top of TransferManager.handle): for any
+   interleaving of transfers with pairwise distinct ids the Client issues exactly as many reports
+   as there are transfers, every bundle sent is reported and nothing else is. *)
+Lemma tcc_reports_exact : forall xs tr,
+  NoDup (map x_tid xs) -> Forall xfer_ok xs -> MergeAll (map xfer_segs xs) tr ->
+  length (tcc_reports tr) = length xs
+  /\ (forall x, In x xs -> In (x_bs x) (tcc_reports tr))
+  /\ (forall b, In b (tcc_reports tr) -> exists x, In x xs /\ b = x_bs x).
+Proof.
+  intros xs tr Hnd Hok Hm. destruct (tcpcl_receiver xs tr Hnd Hok Hm) as [H1 H2].
+  split; [|split].
+  - unfold tcc_reports. rewrite map_length. unfold rx_delivered. rewrite rx_run_count.
+    rewrite (mergeall_filter_length _ sg_has_end _ _ Hm). rewrite map_map.
+    clear - Hok. induction xs as [|x xs IH]; [reflexivity|].
+    inversion Hok as [|? ? Hx Hok']; subst.
+    specialize (IH Hok'). unfold list_sum in *. cbn [map fold_right]. rewrite (xfer_segs_one_end x Hx).
+    rewrite IH. reflexivity.
+  - intros x Hx. unfold tcc_reports. change (x_bs x) with (snd (x_tid x, x_bs x)). apply in_map.
+    assert (Hin : In (x_tid x, x_bs x) (filter (dl_tid (x_tid x)) (rx_delivered tr))) by (rewrite (H1 x Hx); left; reflexivity).
+    apply filter_In in Hin. apply Hin.
+  - intros b Hb. unfold tcc_reports in Hb. apply in_map_iff in Hb. destruct Hb as (d & <- & Hd).
+    destruct (H2 d Hd) as (x & Hx & ->). exists x. split; [exact Hx|reflexivity].
+Qed.
+
+Example tcc_session_example :
+  tcc_alloc_n 0 3 = [0; 1; 2]
+  /\ tcc_chk_trace 2 (tcc_session_xfers 0 [[1; 2; 3]; [9; 8]])
+       [mkSeg 2 0 [1; 2]; mkSeg 3 1 [9; 8]; mkSeg 1 0 [3]] = true
+  /\ tcc_chk_trace 2 (tcc_session_xfers 0 [[1; 2; 3]; [9; 8]])
+       [mkSeg 3 0 [1; 2; 3]; mkSeg 3 1 [9; 8]] = false
+  /\ tcc_chk_trace 2 [(0, [1; 2; 3]); (0, [9; 8])] [mkSeg 3 0 [1; 2; 3]; mkSeg 3 0 [9; 8]] = false
+  /\ tcc_reports [mkSeg 2 0 [1; 2]; mkSeg 3 1 [9; 8]; mkSeg 1 0 [3]] = [[9; 8]; [1; 2; 3]].
+Proof. vm_compute. repeat split; reflexivity. Qed.
